@@ -526,11 +526,23 @@ impl AsEntry {
         &self,
         path_segment: &'seg PathSegment<SignedAsEntry>,
     ) -> (usize, impl Iterator<Item = &'seg [u8]>) {
+        // The position of this entry in the path segment. If the entry is a member of the segment
+        // it is found by identity, so that an equal entry at an earlier position is not mistaken
+        // for it (a duplicated entry must not validate against the prefix of its first
+        // occurrence). Otherwise (e.g. while signing a new entry) the first equal entry, or the
+        // end of the segment, is used.
+        let position = path_segment
+            .as_entries
+            .iter()
+            .position(|e| std::ptr::eq(&e.entry, self))
+            .or_else(|| path_segment.as_entries.iter().position(|e| e.entry == *self))
+            .unwrap_or(path_segment.as_entries.len());
+
         let entry_iter = path_segment
             .as_entries
             .iter()
             // Take all entries before the current one in the path segment.
-            .take_while(|e| e.entry != *self)
+            .take(position)
             .flat_map(|entry| {
                 [
                     entry.signed.header_and_body.as_slice(),
